@@ -97,6 +97,10 @@ REQUIRED_COUNTERS = (['conv:' + c for c in CONVERTERS] + ['scorer:' + s for s in
                         'shared_rank_3plus', 'candidate_only_in_shared_ranks']
                      + ['independents:' + m for m in ['aggregate', 'keep', 'ignore', 'error']]
                      + ['roundm:' + m for m in ROUND_METHODS + ['default']]
+                     + ['rounded_num:' + m for m in ['auto', 'frac', 'dec', 'dec_all', 'float']]
+                     + ['rounded_num:' + m + '_chain' for m in ['auto', 'frac', 'dec', 'dec_all', 'float']]
+                     + ['rounded_half_%s_digit:%s' % (p, m) for p in ('even', 'odd') for m in ('auto', 'frac', 'dec', 'dec_all', 'float')]
+                     + ['rounded_decimals:%d' % d for d in (-1, 0, 1, 2, 3)]
                      + ['round:' + m for m in ROUND_METHODS])
 RULE = ('2-5 candidates (5-8 in the `big` share) with multi-character names; ranked ballots with truncation, shared ranks (incl. one-element and empty '
         'sets), repeated candidates and the empty ballot; approval and score ballots incl. empty ones; weights from small integers, '
@@ -104,7 +108,8 @@ RULE = ('2-5 candidates (5-8 in the `big` share) with multi-character names; ran
         'halves and distinct ballots that share an image; every converter of the quantifier with every rank scorer / subsetter / mode / rounding method, SubsettedVotes at depth 0-3, '
         'and chains of two or three converters. Candidates as multi-character strings, ints incl. 0, the empty string or Person objects; counts as int / Fraction / Decimal (short and 7 decimals) / dyadic float incl. typed zeros and 2^53, 10^18, 10^30, 10^400; ONE converter object per case called on A, B, A+B and the singles in default / ascending / descending order, optionally after a differently configured sibling object; constituencies optionally named like candidates. Non-trivial = at least two ballots in A+B and a non-error result; distinct by request.')
 NOT_VERIFIED = ['set/dict iteration order of outputs (outputs compare as maps; frozensets are canonical sorted id lists)',
-                'Decimal division of RoundedVotes for Fractions is taken as exact (denominators in the generator are small)',
+                'Decimal division of RoundedVotes for Fractions is taken as exact (denominators in the generator are small); counts are '
+                'handed over as int, Fraction, Decimal and dyadic float (all documented as admissible) and kept below 10^20 (quantize has 28 digits)',
                 'Person/PoliticalParty objects are modelled by ids; the mapper reads one attribute',
                 'universe-dependent converters (positional/Borda, Condorcet with unranked_at_bottom, ScoreToRankedVotes with '
                 'unscored_value, InvertedApprovalVotes): additivity is proved over a fixed universe and, for the converter as called, '
@@ -444,7 +449,9 @@ def impl(case):
     try:
         conv = build_conv(case['conv'], ctx)
     except Exception as e:      # noqa
-        return {'err': err_name(e)}
+        # the constructor refuses the configuration: no conversion can take place
+        err = {'err': err_name(e)}
+        return {'A': err, 'B': err, 'AB': err, 'singles': [err for _ in case['singles']]}
 
     def one(prof):
         votes = prof_py(case['kind'], prof, ctx, case.get('depth', 0))
@@ -783,6 +790,8 @@ def ref_convert(spec, kind, prof):
                 return {k: w for k, w in t if k in S}
             return {d: rec(ch, depth - 1) for d, ch in t}
         return 'deep', rec(prof, spec['depth'])
+    if c == 'RoundedVotes' and spec['decimals'] < 0:
+        raise Reject('ValueError')          # documented: ValueError for an invalid number of decimal digits
     if c == 'RoundedVotes':
         return kind, {k: ref_round(w, spec['decimals'], spec.get('round_method', 'ROUND_HALF_UP')) for k, w in prof}
     if c == 'GroupVotesByParty':
@@ -1361,8 +1370,8 @@ def _rnd_spec(rng, name, m):
         return {'c': name, 'subsetter': k, 'subset': sub, 'depth': 0}, {'simple': 'simple', 'approval': 'approval',
                                                                          'ranked': 'ranked', 'score': 'score'}[k]
     if name == 'RoundedVotes':
-        sp = {'c': name, 'decimals': rng.choice([0, 1, 1, 2, 3])}
-        if rng.random() < 0.5:
+        sp = {'c': name, 'decimals': rng.choice([0, 1, 1, 2, 2, 3, 3, 0, 1, 2, -1])}
+        if rng.random() < 0.6:
             sp['round_method'] = rng.choice(ROUND_METHODS)
         return sp, rng.choice(['simple', 'simple', 'approval', 'ranked'])
     raise ValueError(name)
@@ -1375,6 +1384,12 @@ CHAINS = [
     (['RankedToPresenceCounts', 'InvertedSimpleVotes'], 'ranked'),
     (['RankedToPositionalVotes', 'InvertedSimpleVotes'], 'ranked'),
     (['RankedToPositionalVotes', 'RoundedVotes'], 'ranked'),
+    (['RankedToPresenceCounts', 'RoundedVotes'], 'ranked'),
+    (['RankedToFirstPreference', 'RoundedVotes'], 'ranked'),
+    (['RankedToCondorcetVotes', 'RoundedVotes'], 'ranked'),
+    (['RankedToApprovalVotes', 'ApprovalToSimpleVotes', 'RoundedVotes'], 'ranked'),
+    (['VoteTotals', 'RoundedVotes'], 'nested'),
+    (['InvertedSimpleVotes', 'RoundedVotes'], 'simple'),
     (['RankedToFirstPreference', 'InvertedSimpleVotes'], 'ranked'),
     (['ScoreToRankedVotes', 'RankedToFirstPreference'], 'score'),
     (['ScoreToRankedVotes', 'RankedToCondorcetVotes'], 'score'),
@@ -1441,6 +1456,15 @@ def rnd_nested(rng, m):
     return A, B
 
 
+def cap_counts(kind, prof):
+    """Decimal.quantize works with 28 significant digits: keep the counts that reach RoundedVotes below 10^20"""
+    def cap(w):
+        return w if abs(Fraction(w)) < 10 ** 20 else ns(10 ** 12 + 3)
+    if kind == 'nested':
+        return [[d, [[k, cap(w)] for k, w in dv]] for d, dv in prof]
+    return [[k, cap(w)] for k, w in prof]
+
+
 def gen_case(rng, name=None, tags=(), big=False):
     m = rng.randint(5, 8) if big else rng.randint(2, 5)
     name = name or rng.choice(CONVERTERS)
@@ -1453,6 +1477,8 @@ def gen_case(rng, name=None, tags=(), big=False):
                       dec=rng.random() < 0.3)
     if kind == 'nested':
         A, B = rnd_nested(rng, m)
+        if any(s['c'] == 'RoundedVotes' for s in _flat(spec)):
+            A, B = cap_counts(kind, A), cap_counts(kind, B)
         return finish(spec, kind, A, B, tags, dec=rng.random() < 0.3)
     n = rng.randint(6, 14) if big else rng.randint(1, 6)
     ballots = rnd_ballots(rng, kind, m, n)
@@ -1472,27 +1498,32 @@ def gen_case(rng, name=None, tags=(), big=False):
     if any(nm in UNIVERSE_DEPENDENT for nm in names) and rng.random() < 0.8:
         cover(rng, kind, A, B, m)
     if 'RoundedVotes' in names:
-        def cap(w):
-            return w if abs(Fraction(w)) < 10 ** 20 else ns(10 ** 12 + 3)
-        A = [[k, cap(w)] for k, w in A]
-        B = [[k, cap(w)] for k, w in B]
+        A, B = cap_counts(kind, A), cap_counts(kind, B)
     if 'RoundedVotes' in names and spec['c'] == 'RoundedVotes':
         # counts that sit exactly on a rounding tie, just beside it, and negative ones
-        d = spec['decimals']
+        d = max(spec['decimals'], 0)
+        friendly = rng.random() < 0.6          # every count exactly representable as a Decimal
         def tie(w):
             r = rng.random()
             base = Fraction(rng.randint(-12, 40), 10 ** d)
             if r < 0.4:
-                return ns(base + Fraction(1, 2 * 10 ** d))
+                return ns(base + Fraction(1, 2 * 10 ** d))              # exact half, even and odd digit before it
             if r < 0.55:
-                return ns(base + Fraction(rng.choice([1, 2, 4]), 8 * 10 ** d))
+                return ns(base + Fraction(rng.choice([1, 2, 4, 3, 6, 7]), 8 * 10 ** d))
+            if r < 0.7:
+                return ns(base + Fraction(rng.choice([1, 29, 49, 51, 99]), 100 * 10 ** d))   # 1.29-like, not a half
+            if friendly and not _dec_ok(Fraction(w)):
+                return ns(base)
             return w
         A = [[k, tie(w)] for k, w in A]
         B = [[k, tie(w)] for k, w in B]
     if 'RoundedVotes' in names and rng.random() < 0.5:
         ka = {jkey(k) for k, _ in A}
         B = [e for e in B if jkey(e[0]) not in ka]
-    return finish(spec, kind, A, B, tags, dec=rng.random() < 0.3)
+    c = finish(spec, kind, A, B, tags, dec=rng.random() < 0.3)
+    if spec['c'] == 'RoundedVotes':
+        c['_force_num'] = rng.choice(NUM_MODES)     # same values, every admissible type
+    return c
 
 
 def _all_numbers(case):
@@ -1515,10 +1546,15 @@ def _all_numbers(case):
 def num_mode_ok(case, mode):
     if mode in ('auto', 'frac'):
         return True
-    for s in _flat(case['conv']):
-        if not (s['c'] in DEC_OK or (s['c'] == 'ApprovalToSimpleVotes' and not s['split'])):
-            return False
     ws, _ = _all_numbers(case)
+    if case['conv']['c'] == 'RoundedVotes':
+        # documented: "convertible to Decimal (Fraction and any types accepted by the decimal constructor)"; the counts
+        # are rounded one by one, so counts the type cannot hold exactly may stay Fractions next to the typed ones
+        fits = _dec_ok if mode in ('dec', 'dec_all') else _float_ok
+        return any(fits(w) and (w.denominator != 1 or mode == 'dec_all') for w in ws)
+    for s in _flat(case['conv']):
+        if not (s['c'] in DEC_OK or s['c'] == 'RoundedVotes' or (s['c'] == 'ApprovalToSimpleVotes' and not s['split'])):
+            return False
     ok = _dec_ok if mode in ('dec', 'dec_all') else (lambda f: f.denominator == 1 and abs(f) < 2 ** 40 or _float_ok(f))
     if not all(ok(w) for w in ws):
         return False
@@ -1539,6 +1575,8 @@ def vary(case, rng, names=None, num=None, order=None, warm=None, dclash=None):
     nm = names if names is not None else (rng.choice(NAME_KINDS[1:]) if rng.random() < 0.3 else 'str')
     if nm != 'str':
         case['names'] = nm
+    if num is None and case.get('_force_num'):
+        num = case.pop('_force_num')
     mode = num if num is not None else (rng.choice(NUM_MODES[1:]) if rng.random() < 0.35 else None)
     if mode and num_mode_ok(case, mode):
         case['num'] = mode
@@ -1580,8 +1618,18 @@ def retag(case):
     if sum(1 for w in ws[:len(ws)] if w == 0) >= 2:
         tags.add('zero_weight2')
     spec, kind = case['conv'], case['kind']
-    if case.get('order') and isinstance(case.get('_err_then_ok'), bool):
-        pass
+    for s in _flat(spec):
+        if s['c'] == 'RoundedVotes':
+            tags.add('rounded_decimals:%d' % s['decimals'])
+            d = max(s['decimals'], 0)
+            typed = _dec_ok if mode in ('dec', 'dec_all') else (_float_ok if mode == 'float' else (lambda f: True))
+            if any(typed(w) for w in ws):
+                tags.add('rounded_num:' + mode + ('_chain' if spec['c'] == 'Chain' else ''))
+            if spec['c'] == 'RoundedVotes':
+                for w in ws:
+                    x = w * 10 ** d
+                    if x.denominator == 2 and typed(w):
+                        tags.add('rounded_half_%s_digit:%s' % ('even' if (abs(x.numerator) // 2) % 2 == 0 else 'odd', mode))
     for s in _flat(spec):
         if s['c'] == 'SubsettedVotes' and not s['subset']:
             tags.add('empty_subset')
@@ -1661,8 +1709,7 @@ def balanced(rng, per):
                 if any(n in UNIVERSE_DEPENDENT for n in names):
                     cover(rng, kind, A, B, m)
             if 'RoundedVotes' in names:
-                A = [[k, w if abs(Fraction(w)) < 10 ** 20 else '3'] for k, w in A]
-                B = [[k, w if abs(Fraction(w)) < 10 ** 20 else '3'] for k, w in B]
+                A, B = cap_counts(kind, A), cap_counts(kind, B)
             yield finish(spec, kind, A, B, ['balanced', 'chain:' + '>'.join(n[:14] for n in names)])
     for _ in range(per):
         # Borda refuses half A (a ballot with more places than candidates) and then serves B and A+B's singles
@@ -1680,6 +1727,46 @@ def balanced(rng, per):
             if c['conv']['subsetter'] == k and got < per // 2:
                 got += 1
                 yield c
+
+
+def rounding_grid(rng):
+    """RoundedVotes: every round_method the constructor takes (and the default) x decimals 0-3 x every admissible numeric type
+    of the counts, on counts that are exact halves at the rounding digit with an even and with an odd digit before it (both
+    signs), counts next to a half, 1.29-like counts and integers; and the same through chains that end in RoundedVotes"""
+    for meth in [None] + ROUND_METHODS:
+        for d in (0, 1, 2, 3):
+            u = Fraction(1, 10 ** d)
+            vals = [(2 * j + 1) * u / 2 for j in (0, 1, 2, 3, 12)] + [-(2 * j + 1) * u / 2 for j in (0, 1, 2)] + \
+                   [Fraction(129, 100) * u, Fraction(-151, 100) * u, Fraction(1, 8) * u, Fraction(7), Fraction(0), Fraction(49, 100) * u]
+            for mode in NUM_MODES:
+                sp = {'c': 'RoundedVotes', 'decimals': d}
+                if meth:
+                    sp['round_method'] = meth
+                A = [[i, ns(v)] for i, v in enumerate(vals) if i % 2 == 0]
+                B = [[i, ns(v)] for i, v in enumerate(vals) if i % 2 == 1]
+                yield vary(finish(sp, 'simple', A, B, ['directed', 'rounding_grid']), rng, names='str', num=mode, order=False, warm=False)
+    for meth in [None, 'ROUND_DOWN', 'ROUND_UP', 'ROUND_HALF_DOWN', 'ROUND_CEILING']:
+        for mode in ('dec_all', 'dec', 'float', 'frac'):
+            rv = {'c': 'RoundedVotes', 'decimals': 1}
+            if meth:
+                rv['round_method'] = meth
+            W = ['129/100', '1/4', '-3/4', '5/4', '1/8', '3'] if mode != 'float' else ['13/8', '1/4', '-3/4', '5/4', '1/8', '3']
+            RA_ = [[[0, 1], W[0]], [[1], W[1]], [[2, 0], W[2]]]
+            RB_ = [[[0, 1], W[3]], [[2], W[4]], [[1, 2], W[5]]]
+            for first in ({'c': 'RankedToPresenceCounts'}, {'c': 'RankedToFirstPreference'},
+                          {'c': 'RankedToCondorcetVotes', 'unranked_at_bottom': True}):
+                yield vary(finish({'c': 'Chain', 'cs': [dict(first), dict(rv)]}, 'ranked', RA_, RB_, ['directed', 'rounding_grid']),
+                           rng, names='str', num=mode, order=False, warm=False)
+            yield vary(finish({'c': 'Chain', 'cs': [{'c': 'VoteTotals'}, dict(rv)]}, 'nested',
+                              [[0, [[0, W[0]], [1, W[1]]]], [1, [[0, W[2]]]]], [[0, [[0, W[3]], [2, W[4]]]]], ['directed', 'rounding_grid']),
+                       rng, names='str', num=mode, order=False, warm=False)
+    for meth in (None, 'ROUND_DOWN'):
+        sp = {'c': 'RoundedVotes', 'decimals': -1}
+        if meth:
+            sp['round_method'] = meth
+        yield vary(finish(sp, 'simple', [[0, '5/4']], [[1, '3']], ['directed']), rng, names='str', num='auto', order=False, warm=False)
+        yield vary(finish({'c': 'Chain', 'cs': [{'c': 'InvertedSimpleVotes'}, sp]}, 'simple', [[0, '5/4']], [[1, '3']], ['directed']),
+                   rng, names='str', num='auto', order=False, warm=False)
 
 
 def directed_dimensions(rng):
@@ -1849,6 +1936,7 @@ def directed(rng):
     yield finish({'c': 'RankedToFirstPreference'}, 'ranked', [[[0, 1], '1/2'], [[1], '3']], [[[0, 2], '5/4'], [[0, 1], '1/4']],
                  ['directed'], dec=True)
     yield from directed_dimensions(rng)
+    yield from rounding_grid(rng)
     for votes in ([[[0, 1, 2], '2'], [[2], '1'], [[1, 3], '1/2']], [[[{'set': [1]}, 0], '1'], [[], '3'], [[2, 0, 1], '2']]):
         yield {'op': 'util', 'votes': votes, '_tags': ['util']}
 
